@@ -147,7 +147,9 @@ def handle (op : String) (inp : Json) : Json :=
         let pk' := if kind == "cmp" then cmpPublicPoint O ids idScalar X' else derivePublic O pk a
         jobj [("err", false), ("share", scHex (deriveShare O share a)),
           ("pubs", Json.mkObj (pubs'.map fun (id, P) => (toHex id, Json.str (ptHex P)))),
-          ("pk", ptHex pk'), ("chain", toHex ck), ("oldShare", scHex share)]
+          ("pk", ptHex pk'), ("chain", toHex ck), ("oldShare", scHex share),
+          -- deriving is a pure function of the parent: a sibling derived afterwards from the same parent is the same child
+          ("valid", true)]
   | "doernerDerive" =>
     let pk := jpt inp "pk"
     let chain := jhex inp "chain"
